@@ -2,6 +2,8 @@
 // See DESIGN.md section 3 (M1-M8) and 4.1.
 #pragma once
 
+// (first: with UNIFEX_ENABLE_CONTINUATION_VISITATIONS=1 other headers rely on it having been seen)
+#include <unifex/continuations.hpp>
 #include <unifex/blocking.hpp>
 #include <unifex/get_allocator.hpp>
 #include <unifex/get_stop_token.hpp>
@@ -12,6 +14,7 @@
 #include <unifex/sender_concepts.hpp>
 #include <unifex/stop_token_concepts.hpp>
 #include <unifex/unstoppable_token.hpp>
+#include <unifex/tracing/async_stack.hpp>
 
 #include <algorithm>
 #include <cstdarg>
@@ -1080,6 +1083,11 @@ void run_program(MK&& mk) {
   }
   // quiescence: drain anything still parked (detached work)
   drive();
+#if !UNIFEX_NO_ASYNC_STACKS
+  // M13: async-stack bookkeeping must be balanced at a quiescent point on this thread
+  if (unifex::tryGetCurrentAsyncStackRoot() != nullptr)
+    viol("M13 async-stack-root-left-active");
+#endif
   G.arena.release();
   free_source_now();
   // end-of-scenario ledgers (M2, M3)
